@@ -232,7 +232,7 @@ mutual
       extBody (tagBody sk mt mn b) = tagBody sk mt mn (extBody b) := by
     cases b with
     | leaf => simp [tagBody, extBody]
-    | element e => simp [tagBody, extBody]
+    | element e => simp only [tagBody, extBody]; rw [extDesc_tagDesc none e]
     | members ms =>
       simp only [tagBody, extBody]
       rw [extItems_tagItems _ ms, anyTagged_addMarker, anyTagged_extItems, tagItems_addMarker]
